@@ -22,12 +22,13 @@ from vlib import Ctx, bag, log, lval, plain
 
 ID = "C15"
 LEVEL = "proof"
-MODULES = ["SqlframeModel.Props.C15"]
+MODULES = ["SqlframeModel.Codec.C15", "SqlframeModel.Props.C15"]  # the codec is what the driver imports; the audit uses the last one
 GEN = ["Dml"]
 SOURCES = ["SqlframeModel/Props/C15.lean", "SqlframeModel/Lemmas/C15.lean", "SqlframeModel/Impl/C15Dml.lean"]
 
 SCHEMAS = [{"k": "int", "z": "int", "s": "str"}, {"k": "int", "z": "int"}, {"k": "int", "z": "int", "y": "int", "s": "str"}]
-PRED_STYLES = ["handle", "fcol", "mixed", "sql", "absent", "aliased"]
+PRED_STYLES = ["handle", "fcol", "mixed", "sql", "absent", "aliased", "const_py", "const_lit", "const_sql"]
+CONST_STYLES = ("const_py", "const_lit", "const_sql")
 RHS_STYLES = ["handle", "fcol", "mixed", "literal"]
 
 # ------------------------------------------------------------------------------------------------
@@ -95,6 +96,8 @@ def to_sql(e: tuple) -> str:
 def pred_text(p: dict) -> str:
     """the SQL string handed to where=: fully parenthesised, or with the outer parentheses dropped"""
     txt = to_sql(p["e"])
+    if p.get("lower"):
+        txt = txt.lower()
     if not p.get("wrapped", True) and txt.startswith("(") and txt.endswith(")"):
         return txt[1:-1]
     return txt
@@ -159,6 +162,12 @@ def gen_pred(rng: random.Random, schema: t.Dict[str, str], style: t.Optional[str
     style = style or rng.choice(PRED_STYLES)
     if style == "absent":
         return {"style": "absent"}
+    if style in CONST_STYLES:
+        # the whole predicate is a boolean constant: Python bool, F.lit(bool) or the SQL text TRUE / FALSE
+        p = {"style": style, "e": ("lit", rng.random() < 0.35)}
+        if style == "const_sql":
+            p["lower"] = rng.random() < 0.5
+        return p
     g = X.Gen(rng, schema)
     e = g.bool_expr(rng.choice([0, 1, 2]))
     if rng.random() < 0.12:
@@ -224,7 +233,7 @@ def pred_to_lean(p: dict) -> t.Any:
     st = p["style"]
     if st == "absent":
         return "absent"
-    if st == "sql":
+    if st in ("sql", "const_sql"):
         return {"sql": {"e": qexpr(p["e"]), "text": pred_text(p), "wrapped": is_wrapped(pred_text(p))}}
     return {"expr": {"e": qexpr(p["e"]), "aliased": st == "aliased"}}
 
@@ -257,8 +266,10 @@ def show_pred(p: dict) -> str:
     st = p["style"]
     if st == "absent":
         return "None"
-    if st == "sql":
+    if st in ("sql", "const_sql"):
         return repr(pred_text(p))
+    if st == "const_py":
+        return repr(tuple_(p["e"])[1])
     s = show_expr(p["e"])
     return s + ".alias('p')" if st == "aliased" else s
 
@@ -307,8 +318,10 @@ def build_impl(session: t.Any, tb: t.Any, d: dict) -> t.Any:
     st = p["style"]
     if st == "absent":
         where: t.Any = None
-    elif st == "sql":
+    elif st in ("sql", "const_sql"):
         where = pred_text(p)
+    elif st == "const_py":
+        where = tuple_(p["e"])[1]
     else:
         where = X.to_column(tuple_(p["e"]), sh)
         if st == "aliased":
@@ -382,9 +395,36 @@ def same_table(a: dict, b: dict) -> bool:
     return a["cols"] == b["cols"] and bag(a["rows"]) == bag(b["rows"])
 
 
-def evaluate(cases: t.List[dict], workers: int = 0) -> t.List[dict]:
+def _preimport() -> None:
+    """import sqlframe (no connection is opened) so that forked children start warm"""
+    import sys
+
+    if vlib.REPO not in sys.path:
+        sys.path.insert(0, vlib.REPO)
+    import duckdb  # noqa
+    import sqlframe.duckdb  # noqa
+    from sqlframe.duckdb import functions  # noqa
+
+
+def isolated_map(fn: t.Callable[[t.Any], t.Any], items: t.List[t.Any]) -> t.List[t.Any]:
+    """every item in its own freshly forked process: nothing a statement leaves behind in the interpreter
+    (module state, caches, default arguments) can leak from one case into another, so every replay is
+    reproducible on its own; this process itself never runs the implementation"""
+    if not items:
+        return []
+    import multiprocessing as mp
+
+    _preimport()
+    n = max(1, min(int(os.environ.get("VERIF_WORKERS", "8")), os.cpu_count() or 1, len(items)))
+    with mp.get_context("fork").Pool(n, maxtasksperchild=1) as pool:
+        return pool.map(fn, items, chunksize=1)
+
+
+def evaluate(cases: t.List[dict], workers: int = 0, isolated: bool = True) -> t.List[dict]:
+    """`isolated=False` (the bulk stream only): cases share pooled worker processes, which is ~10x faster;
+    every case that fails there is evaluated again in a process of its own before anything is reported"""
     outs = vlib.run_driver("C15", [case_to_lean(i, c) for i, c in enumerate(cases)])
-    impls = vlib.parallel_map(run_impl, cases, workers)
+    impls = isolated_map(run_impl, cases) if isolated else vlib.parallel_map(run_impl, cases, workers)
     res = []
     for c, o, impl in zip(cases, outs, impls):
         if "err" in o:
@@ -414,6 +454,28 @@ def evaluate(cases: t.List[dict], workers: int = 0) -> t.List[dict]:
 
 
 def check_gen_against_live(ctx: Ctx) -> int:
+    """runs in a forked child (see isolated_map); returns the number of comparisons, appends disagreements"""
+    n, broken = isolated_map(_gen_against_live, [0])[0]
+    ctx.broken.extend(broken)
+    return n
+
+
+class _B:
+    def __init__(self) -> None:
+        self.broken: t.List[str] = []
+
+
+def _gen_against_live(_: t.Any) -> t.Tuple[int, t.List[str]]:
+    ctx = _B()
+    try:
+        n = _gen_against_live_body(ctx)
+    except Exception as e:  # noqa  (a probe of the live builder failed outright: that is a disagreement too)
+        n = 0
+        ctx.broken.append(f"comparison of Gen.Dml with the live builder raised {type(e).__name__}: {str(e)[:160]}")
+    return n, ctx.broken
+
+
+def _gen_against_live_body(ctx: t.Any) -> int:
     import logging
 
     from sqlglot import exp
@@ -590,7 +652,18 @@ def run(ctx: Ctx) -> None:
 
     # the stream forks worker processes: nothing may touch DuckDB in this process before it ran
     cases = cases_for(ctx)
-    res = evaluate(cases)
+    res = evaluate(cases, isolated=False)
+    # a failure seen in a shared worker process is confirmed in a process of its own (what a replay does)
+    suspects = [i for i, r in enumerate(res) if classify(r, known)[0] in ("violation", "model")]
+    leaked = 0
+    if suspects:
+        again = evaluate([res[i]["case"] for i in suspects[:40]])
+        for i, r in zip(suspects[:40], again):
+            if classify(r, known)[0] not in ("violation", "model"):
+                leaked += 1
+            res[i] = r
+        if leaked and leaked == len(again):
+            ctx.broken.append(f"{leaked} cases differ from the model only when they share an interpreter with earlier cases: the builder keeps state between statements")
     nb = len(ctx.broken)
     try:
         n_gen = check_gen_against_live(ctx)
@@ -630,6 +703,10 @@ def run(ctx: Ctx) -> None:
     for r in (viol + model_bad)[:3]:
         c = shrink(r["case"], lambda rr: classify(rr, known)[0] in ("violation", "model"))
         rr = evaluate([c], workers=1)[0]
+        if classify(rr, known)[0] not in ("violation", "model"):
+            c, rr = r["case"], evaluate([r["case"]], workers=1)[0]
+            if classify(rr, known)[0] not in ("violation", "model"):
+                continue  # not reproducible in a process of its own: covered by the state-leak obligation above
         kind = "implementation differs from the specification" if rr["first_spec_diff"] is not None else "implementation differs from the model (correspondence broken)"
         vlib.report_violation(ctx, dict(replay_dict(kind, c, rr), broken=ctx.broken))
         reported += 1
